@@ -188,7 +188,9 @@ func unq(raw string) (string, bool) {
 
 // ---------------------------------------------------------------- value pools
 var encStrings = []string{"", "plain", "with \"quotes\"", `back\slash`, "line\nbreak\r\ttab", "ctl\x01\x1f", "del\x7f",
-	"bad\xffutf\xc3", "\xe4\xb8", "héllo wörld ✓ 日本語", "valid \ufffd replacement rune", "sep\u2028\u2029 nul\x00", "\U0010ffff\u0080", "pipe||eq=sign", "  ", strings.Repeat("long", 300)}
+	"bad\xffutf\xc3", "\xe4\xb8", "héllo wörld ✓ 日本語", "valid \ufffd replacement rune", "sep\u2028\u2029 nul\x00", "\U0010ffff\u0080", "pipe||eq=sign", "  ", strings.Repeat("long", 300),
+	"ends with the separator||", "||", "|", "a=b||", "=",
+	"over\xc0\x80long", "\xc1\xbf", "\xc0\xafslash", "sur\xed\xa0\x80rogate", "\xf4\x90\x80\x80beyond"}
 
 // keys: every escape class on its own inside otherwise plain text (a fast path may single out "plain" keys by a
 // check that forgets one class), plus structural characters of the text layout and header names
@@ -754,6 +756,12 @@ func cmdEncoder(f hx.Flags, r *hx.Result) {
 		n++
 		distinct++
 		instant := time.Unix(rng.Int63n(4e9), int64(rng.Intn(1e9)))
+		switch n % 9 {
+		case 4: // before the epoch, with a millisecond part
+			instant = time.Unix(-rng.Int63n(3e9)-1, int64(1e6+rng.Intn(998e6)))
+		case 7: // the first second of 1970, as seen from zones on both sides
+			instant = time.Unix(int64(rng.Intn(3))-1, int64(rng.Intn(1e9)))
+		}
 		for v := 0; v < variants; v++ {
 			fields, want, _ := g.members(c.Calls, 0, true)
 			e := &log.Event{}
@@ -952,6 +960,16 @@ func encReturnedBytes(r *hx.Result) {
 			e := &log.Event{Level: log.InfoLevel, Time: time.Unix(1e9, 0).UTC(), File: "f.go", Line: 1, Tag: "_t",
 				Fields: []log.Field{log.Int("id", int64(size)), log.String("pad", strings.Repeat(string(rune('a'+size%26)), size)),
 					log.Ints("arr", []int64{1, 2, 3}), log.Object("obj", log.String("k", "v")), log.Int("end", 1)}}
+			if size%100 == 0 {
+				// a call whose user-supplied encoder panics half-way through a nested value (the caller recovers):
+				// whatever the layout keeps between calls must be as good as new afterwards
+				pe := &log.Event{Level: log.ErrorLevel, Time: time.Unix(1e9, 0).UTC(), File: "f.go", Line: 2, Tag: "_t",
+					Fields: []log.Field{log.String("before", "x"), log.Object("o", log.Array("arr", srPoison{})), log.Int("after", 1)}}
+				if p := hx.Catch(func() { lay.ToBytes(pe) }); p != "poison" {
+					r.Violate("layout-panic", map[string]any{"size": size}, "formatting an event with a panicking encoder: recovered %v, want the encoder's own panic", p)
+					return
+				}
+			}
 			var b []byte
 			if p := hx.Catch(func() { b = lay.ToBytes(e) }); p != nil {
 				r.Violate("layout-panic", map[string]any{"size": size}, "ToBytes panicked: %v", p)
